@@ -37,7 +37,7 @@ impl<'a> Read for FaultReader<'a> {
             return Err(io::Error::new(self.kind, "injected"));
         }
         if !(self.one_shot && self.fired) {
-            want = want.min(self.fail_at - self.pos);
+            want = want.min(self.fail_at.saturating_sub(self.pos).max(1));
         }
         let n = want.min(buf.len()).min(self.data.len() - self.pos);
         buf[..n].copy_from_slice(&self.data[self.pos..self.pos + n]);
@@ -60,7 +60,48 @@ fn hist<T: serde::de::DeserializeOwned>(rd: FaultReader, n: usize, show: fn(&T) 
     parts.join(" ")
 }
 
+#[derive(serde::Deserialize, Debug)]
+#[allow(dead_code)]
+struct TS { a: u8, b: Option<bool> }
+#[derive(serde::Deserialize, Debug)]
+#[allow(dead_code)]
+enum TE { A(u8), B { x: u8 }, C, D(u8, u8) }
+
+fn show_res<T: std::fmt::Debug>(r: Result<T, serde_json::Error>) -> String {
+    match r {
+        Ok(v) => format!("ok {}", hex(format!("{:?}", v).as_bytes())),
+        Err(e) => if e.is_io() { show_err_item(&e) } else { format!("{} {}", show_err_item(&e), msg_class(&e)) },
+    }
+}
+
+// tio <type 0..7> <k|-> <kind> <hex> : typed targets (real derive / std types) over a reader failing once k bytes were delivered ("-" = never)
+fn typed_io(f: &[&str]) -> String {
+    let data = match unhex(f[4]) { Some(d) => d, None => return "BADCASE".into() };
+    let kind = kind_of(f[3].parse().unwrap_or(1));
+    let k: usize = if f[2] == "-" { usize::MAX } else { f[2].parse().unwrap_or(0) };
+    let mut outs: Vec<String> = vec![];
+    for (chunk, interrupts) in [(1usize, false), (3, true), (64, false)] {
+        let rd = FaultReader { data: &data, pos: 0, chunk, fail_at: k.min(data.len() + 1), kind, one_shot: false, fired: false, tick: 0, interrupts };
+        let rd = if k == usize::MAX { FaultReader { fail_at: usize::MAX, ..rd } } else { rd };
+        let s = match f[1] {
+            "0" => show_res(serde_json::from_reader::<_, Vec<u8>>(rd)),
+            "1" => show_res(serde_json::from_reader::<_, std::collections::BTreeMap<String, u8>>(rd)),
+            "2" => show_res(serde_json::from_reader::<_, (u8,)>(rd)),
+            "3" => show_res(serde_json::from_reader::<_, TS>(rd)),
+            "4" => show_res(serde_json::from_reader::<_, TE>(rd)),
+            "5" => show_res(serde_json::from_reader::<_, Vec<(u8, String)>>(rd)),
+            "6" => show_res(serde_json::from_reader::<_, std::collections::BTreeMap<i32, Vec<i128>>>(rd)),
+            _ => show_res(serde_json::from_reader::<_, Option<Vec<TE>>>(rd)),
+        };
+        outs.push(s);
+    }
+    if outs.iter().all(|s| *s == outs[0]) { outs[0].clone() } else { format!("SCHEDULE-DEPENDENT {}", outs.join(" | ")) }
+}
+
 fn dispatch(f: &[&str]) -> String {
+    if f.len() == 5 && f[0] == "tio" {
+        return typed_io(f);
+    }
     if f.len() != 7 || f[0] != "sio" {
         return "BADCASE".into();
     }
